@@ -1,7 +1,7 @@
 #!/bin/bash
 # usage: seed_eval.sh <ID> "<demo cargo test command (run inside the scratch worktree)>" [props to check, default all]
 # Confirms a seeded change (patch compiles, suite passes, demo fails with / passes without), then runs the checks
-# of /verif against /repo with the patch applied, and restores /repo.
+# of /verif against a scratch worktree with the patch applied (tools/eval_patch.sh); /repo is never modified.
 ID=$1; DEMO=$2; PROPS=${3:-all}
 SD=${SEEDDIR:-/tmp/seed}; P=$SD/$ID-patch.diff; D=$SD/$ID-demo.diff
 W=/var/tmp/seedcheck-$ID; T=/var/tmp/seedcheck-target
@@ -19,7 +19,8 @@ echo "== demo without patch (expected to pass)"
 cd /verif
 git -C /repo worktree remove --force $W
 [ -n "$NOCHECK" ] && exit 0
-echo "== checks against /repo + patch"
-git -C /repo apply $P || exit 3
-if [ "$PROPS" = "all" ]; then ./check all 2>&1 | grep -v "^      witness" | grep -E "new=[1-9]|^\s+\[|BUILD" | cut -c1-330; else for p in $PROPS; do ./check $p 2>&1 | grep -v "^      witness" | grep -E "new=|^\s+\[" | cut -c1-330; done; fi
-git -C /repo checkout -- . ; git -C /repo status --short | head -3
+# never in /repo itself: a check run there rewrites /verif/evidence and /verif/replays from a broken tree, which is
+# how a stale evidence/C02.json once got committed
+echo "== checks against a scratch worktree of /repo HEAD + patch"
+/verif/tools/eval_patch.sh "$(realpath $P)" "$PROPS"
+git -C /repo status --short | head -3
